@@ -35,7 +35,7 @@ META = {
             "the form read from the expression text, `expression` = that text verbatim, conversion = the character after ! "
             "(r when = is used without conversion and spec), then the spec components in order; the reader stops right after the "
             "closing brace.  read_fcomponents_until: one String per literal run, the components of each field, in order; "
-            "FString joins adjacent strings.  compile_fcomponent: FormattedValue(value, conversion = ord(c) or -1, format_spec = "
+            "FString and FComponent (in its format spec) join adjacent strings.  compile_fcomponent: FormattedValue(value, conversion = ord(c) or -1, format_spec = "
             "JoinedStr of the spec components or None); compile_fstring: JoinedStr equal to CPython's parse of the Python "
             "rendering (adjacent constants merged, empty constants dropped).  Malformed: empty field, conversion character other "
             "than s r a, conversion longer than one character, ! without a character, trailing junk, missing closing brace, "
